@@ -7,7 +7,7 @@ ids=${@:-$(ls seeded | grep '^C')}
 [ -z "$(git -C /repo status --porcelain -- src)" ] || { echo "/repo not clean"; exit 1; }
 for id in $ids; do
   git -C /repo apply /verif/seeded/$id/patch.diff || { echo "$id: patch does not apply"; continue; }
-  if [ $ALL = 1 ]; then checks="C01 C02 C03 C04 C05 C06 C07 C08 C09 C10 C11 C12 C13 C14 C15 C16 C17 C18 C19 C20"; else checks=$id; fi
+  if [ $ALL = 1 ]; then checks="C01 C02 C03 C04 C05 C06 C07 C08 C09 C10 C11 C12 C13 C14 C15 C16 C17 C18 C19 C20"; else checks=${id:0:3}; fi
   for c in $checks; do
     out=$(timeout 1200 ./check $c quick 2>&1); rc=$?
     line=$(echo "$out" | grep -E "violation detail" | head -1 | cut -c1-150)
